@@ -9,7 +9,8 @@ BUILD = VERIF / "build"
 COQ = VERIF / "coq"
 HARNESS = VERIF / "harness"
 TOOLS = VERIF / "tools"
-EVIDENCE = VERIF / "evidence"
+# evidence is only ever written for /repo itself: a run redirected to a scratch worktree writes under build/
+EVIDENCE = VERIF / "evidence" if "VERIF_REPO" not in os.environ else BUILD / "dev-evidence"
 CORPUS = VERIF / "corpus"
 FINDINGS = VERIF / "known_findings.json"
 JOBS = int(os.environ.get("VERIF_JOBS", "16"))
